@@ -392,6 +392,14 @@ pub fn run(ctx: &Ctx) -> (Stats, Spec) {
         let inv = Inv { text: text.into(), ordering: Some(ord.into()), t: true, v: true, r: true, ..Default::default() };
         check_inv(ctx, &mut st, &inv, &format!("fixed-{}", k));
     }
+    // texts that begin AND end with a prime (part of a name, not a quotation mark)
+    for text in ["'a & a'", "'x'", "'p | -q'", "'q", "b'", "'a' & 'b'", "''"] {
+        for ch in 0..6u8 {
+            k += 1;
+            let inv = Inv { text: text.into(), t: true, v: true, channel: ch, ..Default::default() };
+            check_inv(ctx, &mut st, &inv, &format!("primes-{}", k));
+        }
+    }
     // long outputs (tens of KiB: more than any output buffer), with the table and the -v listing
     // in one run — parity and threshold functions of 8-10 variables have 2^n or many rows
     for n in ctx.tier.pick(vec![8usize, 9], vec![8, 9, 10, 11]) {
